@@ -1,13 +1,61 @@
 (** C01 — Forward chaining runs a rule's actions iff its condition is true (statements only; proofs in
-    Proofs/ForwardProofs.v).  Model: Model/Forward.v (the engine on the parsed Rule structure, strings
-    with byte offsets, binary64 arithmetic) and Model/ForwardSpec.v (the typed core as a syntax tree, its
-    printer, the parser's translation [compile], the documented meaning [den_cond]/[den], the pass loop). *)
-From RRE Require Import Base.Sx Base.Float Base.Num Model.ExprShape Model.Forward Model.ForwardSpec Proofs.ForwardProofs.
+    Proofs/Forward*.v).  Model: Model/Forward.v (the engine on the parsed Rule structure: strings with byte
+    offsets, Operator::evaluate, the string-splitting expression evaluator, binary64 and exact i64
+    arithmetic, the fact store) and Model/ForwardSpec.v (the typed core as a syntax tree, its printer, the
+    parser's translation [compile], the documented meaning [den_cond] / [den], the pass loop). *)
+From RRE Require Import Base.Sx Base.Float Base.Num Model.ExprShape Model.Forward Model.ForwardSpec Proofs.ForwardProofs Proofs.ForwardExprProofs Proofs.ForwardStepProofs.
 Open Scope Z_scope.
 
-(** The pass loop is a simulation: if every single consideration of a rule by the engine agrees with the
-    documented reading whenever the latter is defined, then so does the whole run (which rules fire, in
-    which order, the facts after each firing, the counters), for every rule list and fact store. *)
+(** 1. Precedence, associativity, parentheses, negative and string literals: for EVERY well-formed tree
+    (the right operand of + - has no top-level + -; the left operand of * / % has none and its right operand
+    is an atom or parenthesised), evaluate_expression applied to the printed text applies every operator to
+    the values of exactly its two sub-trees. *)
+Theorem C01_evaluator_computes_the_tree : forall f e, wf e = true -> evaluate_expression f (pr e) = meval f e.
+Proof. exact evaluate_expression_print. Qed.
+Print Assumptions C01_evaluator_computes_the_tree.
+
+(** ... and that is the documented value wherever the documented arithmetic is defined *)
+Theorem C01_expression_value : forall f e v, wf e = true -> atoms_ok e -> den f e = Some v ->
+  evaluate_expression f (pr e) = EOk v.
+Proof. exact evaluate_expression_den. Qed.
+Print Assumptions C01_expression_value.
+
+(** 2. The operator table: wherever the documented comparison of two values is defined (typed equality,
+    null, numeric orderings with exact integers, substring / prefix / suffix, membership in arrays),
+    Operator::evaluate returns it. *)
+Theorem C01_operator_table : forall o x y b, sem_cmp o x y = Some b -> op_eval o x y = b.
+Proof. exact sem_cmp_op. Qed.
+Print Assumptions C01_operator_table.
+
+(** 3. Condition evaluation never panics and always yields a boolean, for every condition group and facts *)
+Theorem C01_condition_total : forall f g, exists b, eval_group f g = BOk b.
+Proof. exact eval_group_total. Qed.
+Print Assumptions C01_condition_total.
+
+(** 4. One consideration of a rule: whenever the documented meaning of the `when` expression and of the
+    assignments is defined on the current facts, the engine fires iff the expression is true and then
+    stores, assignment by assignment, the value each right-hand side has at that moment. *)
+Theorem C01_consideration : forall f r cr x, rule_ok r -> compile_rule r = Some cr ->
+  sem_step true f r = Some x -> model_step f cr = x.
+Proof. exact step_agree. Qed.
+Print Assumptions C01_consideration.
+
+(** 5. Whole runs: for every rule set of the typed core and every fact store, whenever the documented
+    semantics defines the run, the engine does exactly that (firing order, facts after each firing,
+    cycle / evaluated / fired counters). *)
+Theorem C01_run : forall rs crs f res, Forall rule_ok rs -> compiled rs = Some crs ->
+  run_rules (sem_step true) (sorted_spec rs) f = Some res ->
+  run_rules (fun f r => Some (model_step f r)) (sorted_model crs) f = Some res.
+Proof. exact run_agree. Qed.
+Print Assumptions C01_run.
+
+(** the reading used by the monitor (a string literal is a literal) extends the strict one of the theorem *)
+Theorem C01_strict_reading_refines_monitor : forall rs f res,
+  run_rules (sem_step true) rs f = Some res -> run_rules (sem_step false) rs f = Some res.
+Proof. exact run_strict_mono. Qed.
+Print Assumptions C01_strict_reading_refines_monitor.
+
+(** the loop itself: agreement of every consideration gives agreement of the run *)
 Theorem C01_run_follows_considerations :
   forall (R1 R2 : Type) (sem : facts -> R1 -> option sres) (eng : facts -> R2 -> option sres) (rel : R1 -> R2 -> Prop),
     (forall f r1 r2 x, rel r1 r2 -> sem f r1 = Some x -> eng f r2 = Some x) ->
@@ -16,10 +64,42 @@ Theorem C01_run_follows_considerations :
 Proof. exact @run_rules_sim. Qed.
 Print Assumptions C01_run_follows_considerations.
 
-(** sorting both rule lists by salience keeps them aligned *)
-Theorem C01_salience_order_aligned :
-  forall (T1 T2 : Type) (rel : T1 -> T2 -> Prop) (l1 : list (Z * Z * T1)) (l2 : list (Z * Z * T2)),
-    Forall2 (fun a b => fst a = fst b /\ rel (snd a) (snd b)) l1 l2 ->
-    Forall2 (fun x y => fst x = fst y /\ rel (snd x) (snd y)) (by_salience l1) (by_salience l2).
-Proof. exact @by_salience_rel. Qed.
-Print Assumptions C01_salience_order_aligned.
+(** non-vacuity: a concrete rule set meets every hypothesis of C01_run, its documented run is defined,
+    fires, and stores (5 - 1) * -3 = -12:
+      rule R0 salience 10: when n1 + n2 * 2 > 10 && s1 == "gold" then out = (n1 - 1) * -3; n2 = out + n2 *)
+Definition ex_n1 : str := [110; 49].  Definition ex_n2 : str := [110; 50].  Definition ex_s1 : str := [115; 49].
+Definition ex_out : str := [111; 117; 116].  Definition ex_gold : str := [103; 111; 108; 100].
+Definition ex_rule : srule :=
+  {| sr_sal := 10;
+     sr_cond := SAnd (SCmp (ABin 43 (AField [ex_n1]) (ABin 42 (AField [ex_n2]) (ALit (LInt 2)))) OGt (ALit (LInt 10)))
+                     (SCmp (AField [ex_s1]) OEq (ALit (LStr ex_gold)));
+     sr_sets := [([ex_out], ABin 42 (APar (ABin 45 (AField [ex_n1]) (ALit (LInt 1)))) (ALit (LInt (-3))));
+                 ([ex_n2], ABin 43 (AField [ex_out]) (AField [ex_n2]))] |}.
+Definition ex_facts : facts := [(ex_n1, VInt 5); (ex_n2, VInt 3); (ex_s1, VStr ex_gold)].
+
+Ltac c01_ok :=
+  repeat match goal with
+         | |- _ /\ _ => split
+         | |- exists _, _ => eexists
+         | |- _ = _ => vm_compute; reflexivity
+         | |- atoms_ok _ => cbn [atoms_ok]
+         | |- rhs_ok _ => cbn [rhs_ok]
+         | |- cmp_ok _ _ _ => cbn [cmp_ok]
+         | |- cond_ok _ => cbn [cond_ok]
+         | |- ctest_rhs_ok _ => left
+         | |- Forall _ [] => constructor
+         | |- Forall _ (_ :: _) => constructor
+         end.
+
+Example C01_example :
+  Forall rule_ok [ex_rule]
+  /\ (exists crs, compiled [ex_rule] = Some crs)
+  /\ (exists st k n, run_rules (sem_step true) (sorted_spec [ex_rule]) ex_facts = Some (st, k, n)
+                     /\ l_nfired st = 1 /\ fget (l_f st) ex_out = Some (VInt (-12)) /\ fget (l_f st) ex_n2 = Some (VInt (-9))).
+Proof.
+  split; [|split].
+  - constructor; [|constructor]. unfold rule_ok. cbn [sr_cond sr_sets ex_rule snd]. split; [c01_ok|].
+    constructor; [cbn [snd]; c01_ok|constructor; [cbn [snd]; c01_ok|constructor]].
+  - eexists. vm_compute. reflexivity.
+  - eexists. eexists. eexists. split; [vm_compute; reflexivity|]. split; [vm_compute; reflexivity|]. split; vm_compute; reflexivity.
+Qed.
